@@ -173,8 +173,9 @@ VarexpNormalised == remaining = {} =>
 BoundDefined == remaining = {} =>
                   LET s == extracted
                       m == NCmp(s, 1, 1, MaxLen)
-                      b == Bounds(s, KK * EpsPca9(shape[1]), m)
-                  IN m = Len(s) /\ \A i \in 1..m : b[i] > 0 /\ b[i] <= Cap /\ (i > 1 => b[i] >= b[i-1])
+                      b == BoundsPT(s, KK * EpsPca9(shape[1]), m)
+                  IN m = Len(s) /\ \A i \in 1..m : /\ b.t[i] > 0 /\ b.t[i] <= Cap /\ b.p[i] > 0 /\ b.p[i] <= Cap
+                                                     /\ (i > 1 => b.p[i] >= b.p[i-1] /\ b.t[i] >= b.p[i-1])
 (* GEN: one line per complete case *)
 Emit == IF remaining = {} THEN PrintT("@@" \o ToJson([sig2 |-> extracted, n |-> shape[1], c |-> shape[2]])) ELSE TRUE
 ====
